@@ -1,7 +1,7 @@
 // C01 scheduler-level oracle (real threads, real library): every submitted unit of work runs exactly once (or is skipped
 // exactly once when its group was cancelled); waits cover all transitively submitted work.
 //   args: P seed n scenario   scenario: 0 task_group tree | 1 arena enqueue+execute | 2 affinity parallel_for x3 | 3 isolate |
-//         4 cancelled group | 5 nested groups from several external threads | 6 task_handle / defer
+//         4 cancelled group | 5 nested groups from several external threads | 6 task_handle / defer | 7 nested isolation, unwaited inner group
 #include "common.h"
 #include <random>
 #include <mutex>
@@ -75,6 +75,30 @@ int main(int argc, char** argv) {
         });
         for (auto& x : th) x.join();
         for (int i = 0; i < (n / 4) * 4 * 4; ++i) if (cnt[i] != 1) notonce++;
+    } else if (sc == 7) {
+        // work submitted in a nested isolated region and not waited for there sits ABOVE the enclosing region's task in the owner's
+        // deque: the owner's get_task skips it (foreign isolation tag), takes its own task from the head and re-publishes the skipped one
+        tbb::task_arena a(std::max(2, std::min(P, 8)));
+        a.execute([&] {
+            tbb::parallel_for(0, 1000, [](int) { for (volatile int k = 0; k < 2000; ++k) {} });      // warm the workers up
+            for (int i = 0; i < n; ++i) {
+                tbb::task_group gA, gB;
+                tbb::this_task_arena::isolate([&] {
+                    gA.run([&cnt, i] { cnt[2 * i]++; for (volatile int k = 0; k < 60000; ++k) {} });
+                    tbb::this_task_arena::isolate([&] { gB.run([&cnt, i] { cnt[2 * i + 1]++; }); });
+                    if (i % 3 == 0) tbb::this_task_arena::isolate([&] { gB.run([&cnt, i, n] { cnt[2 * n + i]++; }); });
+                    gA.wait();
+                    if (cnt[2 * i] != 1) early++;
+                });
+                gB.wait();
+                if (cnt[2 * i + 1] != 1) early++;
+                std::atomic<int> sum{0};
+                tbb::parallel_for(0, 64, [&](int) { sum++; }, tbb::simple_partitioner{});
+                if (sum != 64) early++;
+            }
+        });
+        for (int i = 0; i < 2 * n; ++i) if (cnt[i] != 1) { notonce++; if (cnt[i] > 1) twice++; }
+        for (int i = 0; i < n; i += 3) if (cnt[2 * n + i] != 1) notonce++;
     } else {
         tbb::task_group tg; std::vector<tbb::task_handle> hs;
         for (int i = 0; i < n; ++i) hs.push_back(tg.defer([&cnt, i] { cnt[i]++; }));
